@@ -5,6 +5,7 @@ from pyvc.driver import Unit
 from pyvc.values import *
 from pyvc import values as V
 from pyvc.interp import RaiseEx, LoopSpec
+from pyvc import smt
 from . import aw
 from .aw import World, ASYNC, CLOCK, Ev
 from .async_node import COMMON_SUMM, throttle_summary
@@ -404,3 +405,117 @@ class PushExpectedNonblocking(Unit):
 
 
 UNITS = [PushTsInput(), PushInput(), PushZip(), PushSelection(), PushTsMax(), PushExpectedNonblocking()]
+
+
+# =========================================================================================== push_expected_blocking
+CNT = z3.Function("blocking_count", INT, INT)
+
+
+class PushExpectedBlocking(Unit):
+    """how many producer messages a blocking step takes: the producer ticks j >= 0 whose scheduled output time
+    T(j) = R6(j/rate_in + phase_in) falls in (t_low, t_high] ([t_low, t_high) if skipped; step 0 also takes everything earlier)"""
+    name = "push_expected_blocking"
+    target = aw.AS + "::_AsyncConnectionWrapper.push_expected_blocking"
+    props = ("C02", "C03")
+
+    def configs(self):
+        yield "SIM,B", dict(clock="SIMULATED", blocking=True)
+
+    def summaries(self, cfg):
+        return conn_summaries(["push_ts_max", "push_selection"])
+
+    def opts(self, cfg):
+        return {"no_ifexp_merge": True}   # fork on `N_node > 0` so that the start index is a plain term on each path
+
+    def setup(self, ctx):
+        ex = ctx.ex
+        w, c, src, dst = mk_conn_world(ctx, ctx.cfg)
+        conn = c.f["connection"]
+        pre = ctx.snapshot(c)
+        qn = pre.f["q_ts_next_step"]
+        N = qn.leaf((0,), 0)
+        rate_in, rate_node = conn.f["output_node"].f["rate"], conn.f["input_node"].f["rate"]
+        phase_in, phase_node = R6(conn.f["output_node"].f["phase"]), R6(conn.f["input_node"].f["phase"])
+        skip = conn.f["skip"]
+        ctx.require(N >= 0)                       # ticks are counted from 0 (push_scheduled_ts contract)
+        ctx.require(rate_in <= 100000)            # a producer period exceeds the 1e-6 rounding grid
+        ctx.require(conn.f["output_node"].f["phase"] >= 0)
+        ctx.require(conn.f["input_node"].f["phase"] >= 0)
+        t_high = R6((1 / rate_node) * z3.ToReal(N) + phase_node)
+        t_low = R6((1 / rate_node) * z3.ToReal(N - 1) + phase_node)
+        T = lambda j: R6(z3.ToReal(j) / rate_in + phase_in)
+
+        def qual(j):
+            t = T(j)
+            first = z3.And(N == 0, z3.Or(z3.And(z3.Not(skip), t <= t_low), z3.And(skip, t < t_low)))
+            mid = z3.Or(z3.And(z3.Not(skip), t_low < t, t <= t_high), z3.And(skip, t_low <= t, t < t_high))
+            return z3.And(t >= phase_in, z3.Or(first, mid))
+
+        return w, c, dst, pre, N, rate_in, phase_in, t_low, t_high, T, qual, skip
+
+    def run(self, ctx):
+        ex = ctx.ex
+        w, c, dst, pre, N, rate_in, phase_in, t_low, t_high, T, qual, skip = self.setup(ctx)
+        i0 = z3.Int("i0")  # ghost: the start index chosen by the code, captured at loop entry
+        j = z3.Int("j!pb")
+        holder = {}
+
+        def inv(ex_, k):
+            env = ex_.frame.env
+            i, t, tt = env["i"], env["t"], env["text_t"]
+            if "i0" not in holder:
+                holder["i0"] = i  # value at loop entry (init obligation is evaluated first)
+                # definition of the ghost counter relative to the start index (conservative extension)
+                ex_.assume(CNT(toz(i)) == 0)
+                ex_.assume(z3.ForAll([j], z3.Implies(j >= toz(i), CNT(j + 1) == CNT(j) + z3.If(qual(j), 1, 0)), patterns=[CNT(j + 1)]))
+            s = toz(holder["i0"])
+            n = len(tt) if isinstance(tt, list) else tt.length()
+            return z3.And(toz(i) >= s, toz(t) == T(toz(i)), toz(n) == CNT(toz(i)), z3.ForAll([j], z3.Implies(z3.And(s <= j, j < toz(i)), T(j) <= t_high)),
+                          aw.same(c.f["q_ts_next_step"], Seq(pre.f["q_ts_next_step"].schema, pre.f["q_ts_next_step"].arrs, pre.f["q_ts_next_step"].lo + 1, pre.f["q_ts_next_step"].hi)))
+
+        ex.loops[("push_expected_blocking", 1)] = LoopSpec(inv, schemas={"text_t": ConstSchema("<str>")})
+        ctx.call(self_obj=c)
+        fr = [(c, f) for f in ("q_ts_next_step", "q_expected_ts_max", "q_expected_select")] + aw.frame_push_ts_max(c) + aw.frame_push_selection(c)
+        finish(ctx, c, pre, fr)
+        calls = [e for e in ex.ev if e.kind == "call"]
+        if not calls:
+            ctx.ensure("not fired => no pending step", pre.f["q_ts_next_step"].length() == 0)
+            aw.frame_check(ctx, aw.reachable(pre), aw.reachable(c), [], label="not fired => empty frame")
+            return
+        ctx.ensure("dispatch: push_ts_max then push_selection", z3.BoolVal([e.fn for e in calls] == ["push_ts_max", "push_selection"]))
+        at1, at2 = calls[0].snap, calls[1].snap
+        s = toz(holder["i0"]) if "i0" in holder else None
+        num = at1.f["q_expected_ts_max"].leaf((), pre.f["q_expected_ts_max"].length())
+        iend = z3.Int("i_end")
+        ctx.ensure("next-step entry consumed", popped(at1.f["q_ts_next_step"], pre.f["q_ts_next_step"], 1))
+        ctx.ensure("count queued once for ts_max and once (with the scheduled time) for the selection",
+                   z3.And(appended_one(at1.f["q_expected_ts_max"], pre.f["q_expected_ts_max"]), num >= 0,
+                          at2.f["q_expected_select"].hi == at1.f["q_expected_select"].hi + 1,
+                          at2.f["q_expected_select"].leaf((1,), at1.f["q_expected_select"].length()) == num,
+                          at2.f["q_expected_select"].leaf((0,), at1.f["q_expected_select"].length()) == pre.f["q_ts_next_step"].leaf((1,), 0)), props=("C03", "C02"))
+        if s is not None:
+            ctx.ensure("C03 blocking rule: count = number of qualifying producer ticks from the start index up to the first tick scheduled after t_high",
+                       z3.Exists([iend], z3.And(iend >= s, num == CNT(iend), T(iend) > t_high, z3.ForAll([j], z3.Implies(z3.And(s <= j, j < iend), T(j) <= t_high)))), props=("C03",))
+            # start-index lemma, split so that the solver only needs linear reasoning over the product terms:
+            jj = z3.Int("jj")           # an arbitrary producer tick (free constant = universally quantified)
+            dt = 1 / rate_in
+            h1 = z3.And(z3.ToReal(jj) / rate_in == z3.ToReal(jj) * dt, z3.ToReal(s) / rate_in == z3.ToReal(s) * dt)
+            h2 = z3.Implies(jj + 1 <= s, z3.ToReal(jj + 1) * dt <= z3.ToReal(s) * dt)
+            h3 = dt >= z3.RealVal("1e-5")
+            ctx.ensure("lemma: x / r = x * (1 / r)", h1, props=("C03",))
+            ctx.ensure("lemma: multiplication by the positive period is monotone", h2, props=("C03",))
+            ctx.ensure("lemma: rate <= 1e5 => period >= 1e-5", h3, props=("C03",))
+            ctx.ensure("C03 start index: no qualifying producer tick below it (floor-division fact)",
+                       z3.Implies(z3.And(h1, h2, h3), z3.Implies(z3.And(0 <= jj, jj < s), z3.Not(qual(jj)))), props=("C03",),
+                       hyps=lambda h: not smt._contains_quant(h))
+            h4 = z3.Implies(jj <= -1, z3.ToReal(jj) * dt <= -dt)
+            ctx.ensure("lemma: negative multiples of the period are <= -period", h4, props=("C03",))
+            ctx.ensure("C03 a start index below 0 is harmless: ticks j < 0 are before the producer's phase and never qualify",
+                       z3.Implies(z3.And(h1, h3, h4), z3.Implies(jj < 0, z3.Not(qual(jj)))), props=("C03",), hyps=lambda h: not smt._contains_quant(h))
+        a, b = z3.Ints("m!a m!b")
+        ctx.ensure("C03 producer schedule is monotone, so no qualifying tick after the first one beyond t_high", z3.ForAll([a, b], z3.Implies(z3.And(0 <= a, a <= b), T(a) <= T(b))), props=("C03",))
+        ctx.ensure("C03 intervals of consecutive steps partition the time line: t_high(N) is t_low(N+1)",
+                   R6((1 / c.f["connection"].f["input_node"].f["rate"]) * z3.ToReal(N) + R6(c.f["connection"].f["input_node"].f["phase"])) == t_high, props=("C03",))
+
+
+UNITS.append(PushExpectedBlocking())
